@@ -164,6 +164,18 @@ pub fn enumerated(thorough: bool) -> Vec<Bad> {
                 out.push(b);
             }
         }
+        // a malformed SCRIPT behind a healthy scripted block of the same file (whatever the first script left behind
+        // - a Lua state, a cached verdict - must not stand in for the second one)
+        if base.kind == "check-lua-script" {
+            for (k, mode) in [(0u8, 0u8), (2, 1), (1, 2)] {
+                let mut b = base.clone();
+                b.with_async = true;
+                b.position = k;
+                b.neighbours = k % 2;
+                b.mode = mode;
+                out.push(b);
+            }
+        }
         // the same malformation on a block written on one source line (kinds whose verdict does not depend
         // on the content having several lines)
         let k = base.kind.as_str();
@@ -206,14 +218,21 @@ fn run_tree(b: &Bad, control: bool, probe: &Probe) -> (String, Outcome) {
     }
     let subject = RuleBlock { attrs, lines: b.lines.clone(), indent: 0 };
     let mut blocks = vec![healthy_block("h1"), healthy_block("h2")];
+    // (a malformed script comes BEHIND the healthy scripted block, everything else in front of it)
+    let scripted_first = b.with_async && b.kind == "check-lua-script";
     if b.with_async {
-        blocks.push(RuleBlock { attrs: vec![a("name", "scripted"), a("check-lua", "nil.lua")], lines: vec!["a".into()], indent: 0 });
+        let scripted = RuleBlock { attrs: vec![a("name", "scripted"), a("check-lua", "nil.lua")], lines: vec!["a".into()], indent: 0 };
+        if scripted_first {
+            blocks.insert(0, scripted);
+        } else {
+            blocks.push(scripted);
+        }
     }
     let subject_file = if b.inline { "m_subject.js" } else { "m_subject.sh" };
     let mut r = if b.inline {
         render_batch(Host::Js, &blocks)
     } else {
-        blocks.insert(b.position as usize, subject.clone());
+        blocks.insert(b.position as usize + scripted_first as usize, subject.clone());
         render_batch(Host::Sh, &blocks)
     };
     if b.inline {
@@ -314,7 +333,7 @@ pub fn check(b: &Bad, probe: &Probe) -> Verdict {
 }
 
 pub fn run(run: &mut Run) {
-    run.rule = "enumerated: a table of malformations judged invalid by the statement (sort direction, sort format, non-numeric keys with >= 2 keys (5 hand-picked blocks and every 2- and 3-line block over {1, 2, x, n/a, blank} with a non-numeric key, incl. identical neighbours), 7 uncompilable regexes x 5 regex-bearing attributes on blocks with content, 15 bad line-count expressions, colon-less affects on a modified block, unknown severity on a violating block of every rule kind (keep-sorted, keep-unique, line-pattern, line-count, check-lua, check-ai), empty/missing/directory/invalid-UTF-8/empty-file Lua scripts, empty AI condition, missing/empty API key) x placement (first/middle/last block; healthy file before/after/both; other satisfied rules on the block) x mode (scan with paths, interactive scan, new-file diff); the sort-direction / sort-format / regex / line-count / Lua-script malformations also on a block written on ONE source line of a JavaScript file (content without a second physical line); every script-free malformation also next to a healthy check-lua block (synchronous and asynchronous validators joined in one run); each with a control run (malformation repaired) that must be healthy. Non-trivial = the malformed block is not alone/first. Quick runs a covering subset of the placement grid, thorough the full product.".into();
+    run.rule = "enumerated: a table of malformations judged invalid by the statement (sort direction, sort format, non-numeric keys with >= 2 keys (5 hand-picked blocks and every 2- and 3-line block over {1, 2, x, n/a, blank} with a non-numeric key, incl. identical neighbours), 7 uncompilable regexes x 5 regex-bearing attributes on blocks with content, 15 bad line-count expressions, colon-less affects on a modified block, unknown severity on a violating block of every rule kind (keep-sorted, keep-unique, line-pattern, line-count, check-lua, check-ai), empty/missing/directory/invalid-UTF-8/empty-file Lua scripts, empty AI condition, missing/empty API key) x placement (first/middle/last block; healthy file before/after/both; other satisfied rules on the block) x mode (scan with paths, interactive scan, new-file diff); the sort-direction / sort-format / regex / line-count / Lua-script malformations also on a block written on ONE source line of a JavaScript file (content without a second physical line); every script-free malformation also next to a healthy check-lua block (synchronous and asynchronous validators joined in one run), every malformed script also BEHIND a healthy scripted block of the same file; each with a control run (malformation repaired) that must be healthy. Non-trivial = the malformed block is not alone/first. Quick runs a covering subset of the placement grid, thorough the full product.".into();
     run.assumptions = vec!["valid spellings are never expected to fail: every table entry is invalid by the statement's own wording".into()];
     let thorough = run.tier == crate::engine::Tier::Thorough;
     let items = enumerated(thorough);
